@@ -8,6 +8,9 @@ Real code, five rigs:
   D  REAL paramiko / asyncssh against an in-process recording asyncssh SERVER (harness/loopback10.py)
                                                 vs model `open`         (what the server was shown)
   E  defaults on real driver / factory objects  (oracle only)
+  H  HISTORIES: 2-3 open() attempts on ONE transport object (with / without close() in between, known_hosts content changing
+     between attempts) over the fakes (paramiko, asyncssh, ssh2 stub) and against the loopback server (paramiko, asyncssh)
+                                                vs model `hist`
 Oracle (independent of the model): strict on and host absent / other key => ScrapliAuthenticationFailed and the
 server (or the fake library) was shown NO authentication request; argv strict."""
 import asyncio, base64, hashlib, hmac as _hmac, itertools, json, os, shutil, subprocess, tempfile, time, traceback
@@ -292,6 +295,7 @@ def run(tier, seed):
     ck.prove("ScrapliProps.C10", lemma_files=["ScrapliProps/C10Lemmas.lean", "ScrapliModel/HostKey.lean", "ScrapliModel/HostKeyTypes.lean"])
     if tier == "thorough":
         ck.leanchecker("ScrapliProps.C10")
+    ck.extra.setdefault("rig_seconds", {})["translate+prove"] = round(time.time() - ck.t0, 1)
     load_findings(ck)
     corpus = json.load(open(VERIF / "corpus" / "C10" / "corpus.json"))
     tmp = tempfile.mkdtemp(prefix="c10-")
@@ -324,12 +328,15 @@ def run(tier, seed):
         """an exception escaping a rig because the code under test behaves differently is a broken correspondence
         (=> exit 1 after the other rigs have searched for a failing input), never a harness failure; only trouble of
         the rig itself (RigError) is exit 2"""
+        t0 = time.time()
         try:
             fn()
         except LB.RigError:
             raise
         except Exception:
             ck.proof_broken(f"rig {name} raised on the code under test", traceback.format_exc())
+        finally:
+            ck.extra.setdefault("rig_seconds", {})[name.split(" ")[0]] = round(time.time() - t0, 1)
 
     # ================= A: known_hosts lookup
     from scrapli.ssh_config import SSHKnownHosts
@@ -455,6 +462,92 @@ def run(tier, seed):
         if kw2.get("known_hosts") is not None:
             ck.notes.append("asyncssh: known_hosts handed to connect() even when not strict")
     guarded("B (library fakes)", rig_B)
+
+    # ================= H1: HISTORIES over the library fakes — several open() attempts on ONE transport object
+    H_CONTENTS = ["absent", "right", "other", "unusable:trunc", "nearmiss:sfx"]
+
+    def bits11(cfg):
+        return "".join("1" if cfg[k] else "0" for k in ("strict", "found", "equal", "importable", "hasKey", "keyLoads", "hasPw", "hasUser",
+                                                          "kexOK", "accKey", "accPw"))
+
+    def abstract(es, h, right_b64, cfg):
+        nm = [e for e in es if names(e, h)]
+        he = nm[-1] if nm else None
+        return dict(cfg, found=he is not None, equal=he is not None and he["key"] == right_b64,
+                    importable=he is not None and importable(he["kt"], he["key"]))
+
+    def fake_history(lib, steps, auth, strict=True, tagx=()):
+        """steps: [(content, fmt, close_before, acc, kexOK)]"""
+        atts, metas = [], []
+        for content, fmt, close, acc, kex in steps:
+            es = structured_entries(fmt, content, host, k_srv, k_other)
+            cfg = cfg_of(strict, auth, acc=acc, kex=kex)
+            atts.append({"cfg": cfg, "close": close, "text": kh_text(es)})
+            metas.append((es, cfg))
+        kh = write_kh([])
+        try:
+            if lib == "paramiko":
+                res = LF.history_paramiko(atts, kh, host, k_srv[1], k_srv[0])
+            elif lib == "ssh2":
+                res = LF.history_ssh2(atts, kh, host, k_srv[1])
+            else:
+                res = LF.history_asyncssh(atts, kh, host, k_srv[1], k_srv[0])
+        except Exception as e:
+            res = [([f"harness-exception:{type(e).__name__}:{e}"[:120].replace(" ", "_").replace(",", ";")], False)] * len(atts)
+        case = {"rig": "fakes-history", "transport": lib, "strict": strict, "auth": auth,
+                "attempts": [{"content": c, "format": f, "close_before": cl, "server_accepts": list(acc), "handshake_ok": kx}
+                             for c, f, cl, acc, kx in steps],
+                "traces": [tr for tr, _ in res]}
+        nt = False
+        for i, ((es, cfg), (tr, _)) in enumerate(zip(metas, res)):
+            trusted = any(e["key"] == k_srv[1] for e in es if names(e, host))
+            nt = nt or (strict and not trusted and i > 0)
+            bad = trace_oracle(strict, trusted, cfg["kexOK"], [x for x in tr if not x.startswith("close-raised")],
+                               key_usable=lib != "asyncssh" or not cfg["hasKey"] or cfg["keyLoads"])
+            if bad:
+                ck.violation({**case, "attempt": i + 1, "content": steps[i][0]},
+                             f"{lib} (library fakes), attempt {i + 1} of a history on ONE transport object: {bad}", matcher)
+        ck.case(("fh", lib, auth, strict, tuple(steps)), nontrivial=nt,
+                tags=(f"H1:{lib}", f"H1:attempts={len(steps)}", "H1:close-between=" + "".join(str(int(x[2])) for x in steps[1:]),
+                      "H1:" + "→".join(x[0].split(":")[0] for x in steps), *tagx),
+                sample={k: case[k] for k in ("transport", "auth", "attempts", "traces")})
+        line = f"hist {lib} " + ";".join(f"{int(at['close'])}:{bits11(abstract(es, host, k_srv[1], cfg))}" for at, (es, cfg) in zip(atts, metas))
+
+        def cmp(reply, res=res, case=case):
+            parts = reply.split("|")
+            mts = [",".join(norm_trace([x for x in pt.split("/")[0].split(",") if x != "."])) or "." for pt in parts]
+            got = [",".join(norm_trace(tr)) or "." for tr, _ in res]
+            if mts != got:
+                ck.disagree(f"HostKey model vs {case['transport']} open() HISTORY over library fakes", case, f"impl={got} model={mts}")
+            else:
+                ck.traces_validated += 1
+                left_m = [pt.split("/")[-1] == "1" for pt in parts]
+                if left_m != [bool(x) for _, x in res]:
+                    ck.extra["advisory_session_left_behind_differs"] = ck.extra.get("advisory_session_left_behind_differs", 0) + 1
+        ask(line, cmp)
+
+    def rig_H1():
+        OK = (True, True)
+        for lib in libs:
+            for c in corpus:
+                if c.get("kind") == "history":
+                    fake_history(lib, [(x["content"], x.get("format", "plain"), x["close_before"], OK, True) for x in c["attempts"]],
+                                 c["auth"], tagx=("H1:corpus",))
+            for c1 in H_CONTENTS:
+                for c2 in H_CONTENTS:
+                    for close in (False, True):
+                        for auth in ("password", "key", "both"):
+                            fake_history(lib, [(c1, "plain", False, OK, True), (c2, "plain", close, OK, True)], auth)
+                        fake_history(lib, [(c1, "hashed", False, OK, False), (c2, "comma", close, OK, True)], "password", tagx=("H1:first-handshake-fails",))
+                        fake_history(lib, [(c1, "comma", False, (False, False), True), (c2, "hashed", close, OK, True)], "both", tagx=("H1:first-login-refused",))
+            n3 = 150 if tier == "quick" else None
+            all3 = [(a1, a2, a3, x2, x3) for a1 in H_CONTENTS for a2 in H_CONTENTS for a3 in H_CONTENTS for x2 in (False, True) for x3 in (False, True)]
+            pick = all3 if n3 is None else ck.rng.sample(all3, n3)
+            for a1, a2, a3, x2, x3 in pick:
+                fake_history(lib, [(a1, "plain", False, OK, True), (a2, ck.rng.choice(["plain", "comma", "hashed"]), x2, OK, ck.rng.random() < 0.9),
+                                   (a3, "plain", x3, ck.rng.choice([OK, (False, True), (False, False)]), True)], ck.rng.choice(list(AUTHS)))
+            fake_history(lib, [("right", "plain", False, OK, True), ("other", "plain", False, OK, True)], "password", strict=False, tagx=("H1:non-strict",))
+    guarded("H1 (histories over library fakes)", rig_H1)
 
     # ================= C: system transport
     def rig_C():
@@ -618,6 +711,79 @@ def run(tier, seed):
                         ck.traces_validated += 1
                 ask(f"open {tr} {b}", cmp)
         guarded("D (loopback server)", rig_D)
+        # ================= H2: HISTORIES against the recording server — REAL libraries, ONE transport object
+        def rig_H2():
+            hs = [(c["transport"], c["auth"], [(x["content"], x["close_before"]) for x in c["attempts"]])
+                  for c in corpus if c.get("kind") == "history" and c.get("transport") in ("paramiko", "asyncssh")]
+            cont = ["absent", "right", "other", "unusable:trunc"]
+            for c1 in cont:
+                for c2 in cont:
+                    for close in (False, True):
+                        hs.append(("asyncssh", "password", [(c1, False), (c2, close)]))
+                        if close or tier == "thorough":
+                            hs.append(("paramiko", "password", [(c1, False), (c2, close)]))
+            # a retry WITHOUT close() on real paramiko costs a banner time-out (4 s) on a tree that starts a second handshake
+            hs += [("paramiko", "password", [("absent", False), ("absent", False)]), ("paramiko", "both", [("other", False), ("right", False)]),
+                   ("paramiko", "key", [("other", False), ("other", True), ("right", True)]),
+                   ("asyncssh", "both", [("other", False), ("absent", False), ("right", True)]),
+                   ("asyncssh", "key", [("right", False), ("other", False), ("other", True)])]
+            done = set()
+            results = []
+
+            async def drive():
+                loop = asyncio.get_running_loop()
+                for tr, auth, steps in hs:
+                    k = (tr, auth, tuple(steps))
+                    if k in done:
+                        continue
+                    done.add(k)
+                    ess = [structured_entries("plain", c, LB.HOST, rig.right, rig.other) for c, _ in steps]
+                    atts = [{"close": cl, "text": kh_text(es)} for es, (_, cl) in zip(ess, steps)]
+                    kh = rig.write("")
+                    if tr == "paramiko":
+                        res = await loop.run_in_executor(None, rig.history_paramiko, auth, True, kh, atts)
+                    else:
+                        res = await rig.history_asyncssh(auth, True, kh, atts)
+                    results.append((tr, auth, steps, ess, res))
+            asyncio.run(drive())
+            for tr, auth, steps, ess, res in results:
+                case = {"rig": "loopback-history", "transport": tr, "strict": True, "auth": auth,
+                        "attempts": [{"content": c, "format": "plain", "close_before": cl} for c, cl in steps],
+                        "outcomes": [o for o, _ in res], "server_saw": [[k for k, _ in sn] for _, sn in res]}
+                nt = False
+                cfgs = []
+                for i, (es, (out, seen)) in enumerate(zip(ess, res)):
+                    trusted = any(e["key"] == rig.right[1] for e in es if names(e, LB.HOST))
+                    nt = nt or (not trusted and i > 0)
+                    retry_same_socket = i > 0 and not steps[i][1]
+                    if not trusted:
+                        if seen:
+                            ck.violation({**case, "attempt": i + 1, "content": steps[i][0]},
+                                         f"REAL {tr} against the recording server, attempt {i + 1} on ONE transport object: strict, known_hosts content "
+                                         f"'{steps[i][0]}' at that attempt, yet the server was shown {[k for k, _ in seen]} ({out})", matcher)
+                        elif out != "ScrapliAuthenticationFailed" and not (retry_same_socket and out == "ScrapliConnectionNotOpened"):
+                            ck.violation({**case, "attempt": i + 1, "content": steps[i][0]},
+                                         f"REAL {tr}, attempt {i + 1}: strict, content '{steps[i][0]}': ended in {out}, not ScrapliAuthenticationFailed", matcher)
+                    # a handshake that did not complete (second handshake on a used socket) is a fact of the environment
+                    cfgs.append(abstract(es, LB.HOST, rig.right[1], dict(strict=True, keyLoads=True, hasUser=True, accKey=True, accPw=True,
+                                                                         kexOK=out != "ScrapliConnectionNotOpened", **AUTHS[auth])))
+                ck.case(("lh", tr, auth, tuple(steps)), nontrivial=nt,
+                        tags=(f"H2:{tr}", f"H2:attempts={len(steps)}", "H2:close-between=" + "".join(str(int(c)) for _, c in steps[1:]),
+                              "H2:" + "→".join(c.split(":")[0] for c, _ in steps)), sample=case)
+
+                def cmp(reply, case=case, res=res):
+                    ok = True
+                    for pt, (out, seen) in zip(reply.split("|"), res):
+                        evs = pt.split("/")[0].split(",")
+                        m_out = "ok" if evs[-1] == "openSession" else "ScrapliAuthenticationFailed" if evs[-1] == "raise:AuthenticationFailed" else "other"
+                        r_out = out if out in ("ok", "ScrapliAuthenticationFailed") else "other"
+                        ok = ok and (m_out, any(e in OFFERS for e in evs)) == (r_out, bool(seen))
+                    if not ok:
+                        ck.disagree(f"HostKey model vs REAL {case['transport']} HISTORY against the loopback server", case, f"model={reply}")
+                    else:
+                        ck.traces_validated += 1
+                ask(f"hist {tr} " + ";".join(f"{int(cl)}:{bits11(c)}" for (_, cl), c in zip(steps, cfgs)), cmp)
+        guarded("H2 (histories against the loopback server)", rig_H2)
         # ---- an OPEN known finding: replay its stored witness on the real code
         f19 = next((f for f in ck.findings if f["id"] == FID and f.get("status") == "open"), None)
         if f19:
@@ -633,12 +799,14 @@ def run(tier, seed):
 
     # ================= model
     ask("order", lambda reply: ck.extra.__setitem__("open_call_order_from_source", reply))
+    t_model = time.time()
     try:
         mout = run_model("C10", lines)
         for fn, reply in zip(checks, mout):
             fn(reply)
     except Exception as e:
         ck.proof_broken("model driver Drv/C10.lean", repr(e))
+    ck.extra["rig_seconds"]["model"] = round(time.time() - t_model, 1)
     shutil.rmtree(tmp, ignore_errors=True)
     ck.exhaustive = True
     ck.extra["exhaustive_scope"] = ("library fakes: the whole product strict x content x format x auth x key-loadable x server-accepts x "
@@ -754,6 +922,55 @@ def replay(path):
                            key_usable=v["transport"] != "asyncssh" or not cfg["hasKey"] or cfg["keyLoads"])
         print("known_hosts:\n" + kh_text(es) + "trace", tr, "\ncomplaint", bad)
         return 1 if bad else 0
+    if rigk in ("fakes-history", "loopback-history"):
+        steps = v["attempts"]
+        if rigk == "fakes-history":
+            right = tuple(asyncssh.generate_private_key("ssh-ed25519").export_public_key().decode().split()[:2])
+            other = tuple(asyncssh.generate_private_key("ssh-ed25519").export_public_key().decode().split()[:2])
+            atts, trusted = [], []
+            for x in steps:
+                es = structured_entries(x.get("format", "plain"), x["content"], "r1", right, other)
+                acc = x.get("server_accepts", [True, True])
+                cfg = dict(strict=v["strict"], keyLoads=True, hasUser=True, kexOK=x.get("handshake_ok", True), accKey=acc[0], accPw=acc[1],
+                           **AUTHS[v["auth"]])
+                atts.append({"cfg": cfg, "close": x["close_before"], "text": kh_text(es)})
+                trusted.append(any(e["key"] == right[1] for e in es if names(e, "r1")))
+            p = tempfile.mktemp(prefix="c10-kh")
+            open(p, "w").write("")
+            if v["transport"] == "paramiko":
+                res = LF.history_paramiko(atts, p, "r1", right[1], right[0])
+            elif v["transport"] == "ssh2":
+                LF.ssh2_available()
+                res = LF.history_ssh2(atts, p, "r1", right[1])
+            else:
+                res = LF.history_asyncssh(atts, p, "r1", right[1], right[0])
+            os.unlink(p)
+            rc = 0
+            for i, (at, tr, (trace, _)) in enumerate(zip(atts, trusted, res)):
+                bad = trace_oracle(at["cfg"]["strict"], tr, at["cfg"]["kexOK"], trace,
+                                   key_usable=v["transport"] != "asyncssh" or not at["cfg"]["hasKey"] or at["cfg"]["keyLoads"])
+                print(f"attempt {i + 1} ({steps[i]['content']}, close before: {steps[i]['close_before']}):", trace, "| complaint:", bad)
+                rc = rc or (1 if bad else 0)
+            return rc
+        rig = LB.Rig().start()
+        try:
+            ess = [structured_entries("plain", x["content"], LB.HOST, rig.right, rig.other) for x in steps]
+            atts = [{"close": x["close_before"], "text": kh_text(es)} for x, es in zip(steps, ess)]
+            kh = rig.write("")
+            if v["transport"] == "paramiko":
+                res = rig.history_paramiko(v["auth"], True, kh, atts)
+            else:
+                res = asyncio.run(rig.history_asyncssh(v["auth"], True, kh, atts))
+            rc = 0
+            for i, (es, (out, seen)) in enumerate(zip(ess, res)):
+                trusted = any(e["key"] == rig.right[1] for e in es if names(e, LB.HOST))
+                retry = i > 0 and not steps[i]["close_before"]
+                bad = (not trusted) and (bool(seen) or (out != "ScrapliAuthenticationFailed" and not (retry and out == "ScrapliConnectionNotOpened")))
+                print(f"attempt {i + 1} ({steps[i]['content']}, close before: {steps[i]['close_before']}): outcome {out}; server saw {seen}; violation: {bad}")
+                rc = rc or (1 if bad else 0)
+        finally:
+            rig.stop()
+        return rc
     if rigk == "lookup":
         from scrapli.ssh_config import SSHKnownHosts
         p = tempfile.mktemp(prefix="c10-kh")
